@@ -269,6 +269,17 @@ func specInScope(stack []scope, n int, s scope) bool {
 //@ func (*Parser).evaluateImports
 //@   loop 5 invariant[C09] imported-top-level-code-kept: len(statements) >= specCountOther(statementsTemp, rangeindex + 1)
 //
+//@ func New
+//@   flag modular: true
+//@   ensures[C14] empty-call-graph: result.index == 0 && len(result.tokens) == 0 && result.currFunc == ""
+//
+//@ func (*Parser).Parse
+//@   flag modular: true
+//
+//@ func (*Parser).evaluateVarDefinition
+//@   ensures[C12] values-only-when-something-follows: calls(evaluateValues) >= 1 ==> arg(evaluateValues, 0, 0).peek().tokenType != lexer.NEWLINE && arg(evaluateValues, 0, 0).peek().tokenType != lexer.EOF
+//@   ensures[C12] declaration-may-end-the-file: calls(evaluateValues) <= 1
+//
 //@ func (*Parser).checkNewVariableNameToken
 //@   ensures[C10,FINDING] compiler-owned-names-rejected: result == nil ==> !specReservedName(token.value)
 //@   ensures[C07] visible-name-rejected: (result != nil) == specVarVisible(ctx, token.value, p.prefix)
